@@ -107,6 +107,28 @@ def first_match_is(table, s, tag):
     return z3.Or(*conds) if conds else z3.BoolVal(False)
 
 
+def json_number_lemmas(prop):
+    """A JSON document is a YAML document: every JSON number is resolved as a number (int without fraction/exponent, float
+    otherwise), true/false/null as bool/null - by the real loader table (so yaml mode reads JSON scalars as json mode does)."""
+    def build():
+        t = resolver_tables()
+        s = z3.String("s")
+        digit, nz = z3.Range("0", "9"), z3.Range("1", "9")
+        integer = z3.Concat(z3.Option(z3.Re("-")), z3.Union(z3.Re("0"), z3.Concat(nz, z3.Star(digit))))
+        frac = z3.Concat(z3.Re("."), z3.Plus(digit))
+        exp = z3.Concat(z3.Union(z3.Re("e"), z3.Re("E")), z3.Option(z3.Union(z3.Re("+"), z3.Re("-"))), z3.Plus(digit))
+        json_float = z3.Union(z3.Concat(integer, frac, z3.Option(exp)), z3.Concat(integer, exp))
+        obs = [
+            make_ob(f"{prop}/lemma:json-scalars/a-JSON-integer-is-read-as-int-in-yaml-mode", "lemma", [z3.InRe(s, integer)], first_match_is(t["loader"], s, "int"), watch={"s": s}, timeout_s=60),
+            make_ob(f"{prop}/lemma:json-scalars/a-JSON-number-with-fraction-or-exponent-is-read-as-float-in-yaml-mode", "lemma", [z3.InRe(s, json_float)], first_match_is(t["loader"], s, "float"), watch={"s": s}, timeout_s=60),
+            make_ob(f"{prop}/lemma:json-scalars/true-false-are-read-as-bool", "lemma", [z3.Or(s == z3.StringVal("true"), s == z3.StringVal("false"))], first_match_is(t["loader"], s, "bool"), watch={"s": s}),
+            make_ob(f"{prop}/lemma:json-scalars/null-is-read-as-null", "lemma", [s == z3.StringVal("null")], first_match_is(t["loader"], s, "null"), watch={"s": s}),
+        ]
+        return obs
+    return Lemma(f"{prop}/lemma:json-scalars-in-yaml-mode", build, replayer="replayers.c01:replay_json_scalar",
+                 trusted=["PyYAML resolves a plain scalar by the first matching resolver of its first character", "regex -> RegLan translation (pyvc/regex.py)"])
+
+
 # ------------------------------------------------------------------------------------- load_basic
 NOT_LOADED = Rec("not_loaded-sentinel")
 is_int_text = z3.Function("int(str).ok", S, z3.BoolSort())
